@@ -854,6 +854,92 @@ func TestVerif_C05_Scenarios(t *testing.T) {
 		}
 	}
 
+	// (S5) two gateway nodes (two DatabaseContexts with their own sequence allocators) on one bucket. Node A still holds
+	// unallocated numbers of an older, lower batch; node B allocates from a newer, higher one. A push through node A
+	// (history new, mid, parent) reserves a low number, loses its compare-and-swap to node B's acknowledged push of
+	// "mid" (inside node A's compute->CAS window) and runs again on top of it: both are acknowledged, and the write that
+	// superseded must carry the greater sequence.
+	{
+		dbB, ctxB := SetupTestDBForBucketWithOptions(t, e.vs.tb.NoCloseClone(), DatabaseContextOptions{})
+		collB, ctxB := GetSingleDatabaseCollectionWithUser(ctxB, t, dbB)
+		if _, err := collB.UpdateSyncFun(ctxB, c05SyncFn); err != nil {
+			t.Fatalf("s5 sync fn: %v", err)
+		}
+		spareA := func() (last, max uint64) {
+			e.db.sequences.mutex.Lock()
+			defer e.db.sequences.mutex.Unlock()
+			return e.db.sequences.last, e.db.sequences.max
+		}
+		for variant := 0; variant < run.N(4, 12); variant++ {
+			e.caseN++
+			doc := fmt.Sprintf("c05-s5-%d", e.caseN)
+			rev1, _, err := collection.Put(ctx, doc, Body{"m": "s5-1", "chan": "A"})
+			if err != nil {
+				t.Fatalf("s5 setup: %v", err)
+			}
+			// busy node A: writes in quick succession grow its batch until it holds spare numbers
+			for i := 0; i < 60; i++ {
+				if last, max := spareA(); max-last >= 3 {
+					break
+				}
+				if _, _, err := collection.Put(ctx, fmt.Sprintf("c05-s5-fillA-%d-%d", e.caseN, i), Body{"chan": "A"}); err != nil {
+					t.Fatalf("s5 filler: %v", err)
+				}
+			}
+			lastA, maxA := spareA()
+			_, fillB, err := collB.Put(ctxB, fmt.Sprintf("c05-s5-fillB-%d", e.caseN), Body{"chan": "A"})
+			if err != nil {
+				t.Fatalf("s5 filler B: %v", err)
+			}
+			run.Eval()
+			if maxA-lastA < 2 || fillB.Sequence <= maxA {
+				run.Count("s5_precondition_not_reached", 1)
+				continue
+			}
+			rev2, rev3 := fmt.Sprintf("2-abc%x", e.caseN), fmt.Sprintf("3-abc%x", e.caseN)
+			var seqB uint64
+			var errB error
+			fired := false
+			e.vs.SetMid(func(op *base.VerifOp, actor string) error {
+				if op.Kind == "WriteUpdateWithXattrs.mid" && op.Key == doc && !fired {
+					fired = true
+					var dB *Document
+					dB, _, errB = collB.PutExistingRevWithBody(ctxB, doc, Body{"m": "s5-2", "chan": "A"}, []string{rev2, rev1}, true, ExistingVersionWithUpdateToHLV)
+					if errB == nil && dB != nil {
+						seqB = dB.Sequence
+					}
+				}
+				return nil
+			})
+			dA, _, errA := collection.PutExistingRevWithBody(ctx, doc, Body{"m": "s5-3", "chan": "A"}, []string{rev3, rev2, rev1}, true, ExistingVersionWithUpdateToHLV)
+			e.vs.SetMid(nil)
+			if !fired || errA != nil || errB != nil || dA == nil || seqB == 0 {
+				run.Note("s5 variant %d: fired=%v errA=%v errB=%v", variant, fired, errA, errB)
+				run.Inconclusive("s5 scenario did not run as planned")
+				continue
+			}
+			run.Count("s5_retried_writes_over_another_nodes_write", 1)
+			run.Nontrivial(fmt.Sprintf("s5/%d", variant))
+			final, ferr := collB.GetDocument(ctxB, doc, DocUnmarshalAll)
+			wit := map[string]any{"scenario": "node A's push of rev3 (history 3,2,1) loses its CAS to node B's push of rev2 and runs again", "node_a_batch_before": []uint64{lastA, maxA},
+				"seq_of_rev2_via_node_b": seqB, "seq_of_rev3_via_node_a": dA.Sequence, "unused_listed_on_rev3": dA.UnusedSequences}
+			if ferr != nil || final == nil {
+				run.Inconclusive("s5 final read failed")
+				continue
+			}
+			wit["stored_history"] = c05Revs(final)
+			if final.GetRevTreeID() != rev3 || final.History[rev3] == nil || final.History[rev3].Parent != rev2 {
+				run.Violation("lost-write", "C05|two-nodes|retried-push-did-not-end-on-top-of-the-other-nodes-write", fmt.Sprintf("%s: stored current %s history %v", doc, final.GetRevTreeID(), c05Revs(final)), wit)
+				continue
+			}
+			if dA.Sequence <= seqB || final.Sequence <= seqB {
+				run.Violation("sequence", "C05|two-nodes|superseding-write-sequence-not-greater-than-superseded",
+					fmt.Sprintf("%s: rev3 superseded rev2 (sequence %d) but carries sequence %d (stored %d)", doc, seqB, dA.Sequence, final.Sequence), wit)
+			}
+		}
+		dbB.Close(ctxB)
+	}
+
 	// (S2) every write kind with forced CAS failures at attempts 1..3: the acknowledged result is what is stored
 	for _, kind := range []string{"put", "delete", "push"} {
 		for _, interfere := range [][]int{{1}, {1, 2}, {2}, {1, 2, 3}} {
